@@ -106,6 +106,77 @@ def main():
             out.write({"id": rid, "kind": "mixed", "nt": True, "n1": int(len(dof1)), "tol": 256, "K": q(K[np.ix_(dof1, dof1)], SM),
                        "M": q(Mf[np.ix_(dof1, dof1)], SM), "lam": q(job.eigenvalues, SL), "vec": [q(job.eigenvectors[:, k], S) for k in range(3)],
                        "Mextra": q(Mf[nu:, :].ravel(), SM) + q(Mf[:, nu:].ravel(), SM)})
+        # mixed container with prescribed unknowns in the extra fields too; modes extracted as copies and in place, one after the other
+        rid = "mixed-extract-%d" % rep
+        if out.want(rid):
+            mesh = fem.Cube(b=(2, 1, 1), n=(3, 2, 2))
+            f = fem.FieldsMixed(fem.RegionHexahedron(mesh), n=3)
+            mat = lambda: fem.ThreeFieldVariation(fem.NeoHooke(mu=1.0, bulk=20.0))  # noqa: E731
+            solid = fem.SolidBody(mat(), f, density=1.5)
+            maskJ = np.zeros(f[2].values.shape, dtype=bool)
+            maskJ[rng.choice(maskJ.shape[0], size=2, replace=False)] = True
+            b = {"left": fem.Boundary(f[0], fx=0, skip=(0, 1, 1)), "bottom": fem.Boundary(f[0], fy=0, skip=(1, 0, 1)),
+                 "back": fem.Boundary(f[0], fz=0, skip=(1, 1, 0)), "J": fem.Boundary(f[2], mask=maskJ)}
+            nm = 4
+            job = fem.FreeVibration(items=[solid], boundaries=b).evaluate(k=nm)
+            fresh = fem.SolidBody(mat(), fem.FieldsMixed(fem.RegionHexahedron(mesh), n=3), density=1.5)
+            K = fresh.assemble.matrix().toarray()
+            M = fresh.assemble.mass().toarray()
+            n = K.shape[0]
+            Mf = np.zeros((n, n))
+            Mf[:M.shape[0], :M.shape[1]] = M
+            dof0, dof1 = fem.dof.partition(f, b)
+            ext, freq = [], []
+            for k in range(nm):
+                # even modes: copy; odd modes: in place on the items' container (which then holds the previous mode / the initial J = 1)
+                fld, fr = job.extract(k, inplace=bool(k % 2))
+                ext.append(q(np.concatenate([x.values.ravel() for x in fld.fields]), S))
+                freq.append(q(fr, S)[0])
+            out.write({"id": rid, "kind": "pairs", "nt": True, "n1": int(len(dof1)), "tol": 256, "K": q(K[np.ix_(dof1, dof1)], SM),
+                       "M": q(Mf[np.ix_(dof1, dof1)], SM), "lam": q(job.eigenvalues, SL), "vec": [q(job.eigenvectors[:, k], S) for k in range(nm)],
+                       "ext": ext, "freq": freq, "dof0": qi(dof0), "dof1": qi(dof1)})
+    # several items with different elastic constants, densities and scale factors on one global field (x0):
+    # K = sum_i multiplier_i K_i and M = sum_i M_i, each re-assembled from a fresh copy of the item
+    for rep in range(2 if quick else 6):
+        rid = "multi-%d" % rep
+        if not out.want(rid):
+            continue
+        threed = rep % 2 == 1
+        if threed:
+            parts = [fem.Cube(a=(0, 0, 0), b=(1, 1, 1), n=(2, 2, 2)), fem.Cube(a=(1, 0, 0), b=(3, 1, 1), n=(3, 2, 2))]
+            Reg, Fld, dim = fem.RegionHexahedron, fem.Field, 3
+        else:
+            parts = [fem.Rectangle(a=(0, 0), b=(1, 1), n=(3, 3)), fem.Rectangle(a=(1, 0), b=(3, 1), n=(4, 3))]
+            Reg, Fld, dim = fem.RegionQuad, fem.FieldPlaneStrain, 2
+        cont = fem.MeshContainer(parts, merge=True)
+        gmesh = cont.stack()
+        x0 = fem.FieldContainer([Fld(Reg(gmesh), dim=dim)])
+        par = [(float(rng.choice([2.0, 4.0])), 0.25, float(rng.choice([0.5, 1.0])), None),
+               (float(rng.choice([1.0, 8.0])), 0.375, float(rng.choice([1.5, 2.0])), float(rng.choice([2.0, 3.0])))]
+        mk = lambda: [fem.SolidBody(fem.LinearElastic(E=E_, nu=nu_), fem.FieldContainer([Fld(Reg(m_), dim=dim)]), density=rho_,  # noqa: E731
+                                    **({} if mu_ is None else {"multiplier": mu_})) for (E_, nu_, rho_, mu_), m_ in zip(par, cont.meshes)]
+        b = {"left": fem.Boundary(x0[0], fx=0, skip=(0, 1, 1)[:dim]), "bottom": fem.Boundary(x0[0], fy=0, skip=(1, 0, 1)[:dim])}
+        if dim == 3:
+            b["back"] = fem.Boundary(x0[0], fz=0, skip=(1, 1, 0))
+        nm = 4
+        job = fem.FreeVibration(items=mk(), boundaries=b).evaluate(x0=x0, k=nm)
+        n = x0[0].values.size
+        K, M = np.zeros((n, n)), np.zeros((n, n))
+        for it, (E_, nu_, rho_, mu_) in zip(mk(), par):
+            it.field.link(x0)
+            Ki = it.assemble.matrix().toarray()
+            Mi = it.assemble.mass().toarray()
+            K[:Ki.shape[0], :Ki.shape[1]] += (1.0 if mu_ is None else mu_) * Ki
+            M[:Mi.shape[0], :Mi.shape[1]] += Mi
+        dof0, dof1 = fem.dof.partition(x0, b)
+        ext, freq = [], []
+        for k in range(nm):
+            fld, fr = job.extract(k, x0=x0, inplace=False)
+            ext.append(q(np.concatenate([x.values.ravel() for x in fld.fields]), S))
+            freq.append(q(fr, S)[0])
+        out.write({"id": rid, "kind": "pairs", "nt": True, "n1": int(len(dof1)), "tol": 128, "K": q(K[np.ix_(dof1, dof1)], SM),
+                   "M": q(M[np.ix_(dof1, dof1)], SM), "lam": q(job.eigenvalues, SL), "vec": [q(job.eigenvectors[:, k], S) for k in range(nm)],
+                   "ext": ext, "freq": freq, "dof0": qi(dof0), "dof1": qi(dof1)})
     out.close()
 
 
